@@ -55,9 +55,9 @@ func runC10(c *an.Ctx) {
 			nFwd++
 		}
 	}
-	c.Min("O1 Seek methods interpreting whence", nComp, 2)
+	c.Min("O1 Seek methods interpreting whence", nComp, 1)
 	if c.Tier == "thorough" {
-		c.Min("O1 Seek methods forwarding to another Seeker", nFwd, 4)
+		c.Min("O1 Seek methods forwarding to another Seeker", nFwd, 1)
 	}
 	dmSeek := p.Func(mod, "DagModifier", "Seek")
 	c.Need(dmSeek != nil && an.XBIsSeek(dmSeek), "DagModifier.Seek(int64,int)(int64,error)")
@@ -291,7 +291,7 @@ func runC10(c *an.Ctx) {
 				"curWrOff and writeStart are moved together", "dm.curWrOff is set without setting dm.writeStart to the same position: the next Write is buffered for a stale position")
 		}
 	}
-	c.Min("O2 buffer-state mutation sites", nO2, 5)
+	c.Min("O2 buffer-state mutation sites", nO2, 1)
 
 	// ---------------- O3: Sync before output uses of curNode
 	// functions Sync runs (transitively, package-local static calls)
@@ -377,7 +377,7 @@ func runC10(c *an.Ctx) {
 				"dm.curNode is used only after a successful Sync()", "dm.curNode is used ("+use+") without a preceding successful Sync() in "+where+": buffered writes are missing from the result")
 		}
 	}
-	c.Min("O3 output uses of curNode", nO3, 3)
+	c.Min("O3 output uses of curNode", nO3, 1)
 
 	// ---------------- O4: reader invalidation
 	nO4 := 0
@@ -521,7 +521,7 @@ func runC10(c *an.Ctx) {
 				"content change happens with the cached reader dropped", "the file content changes ("+s.what+") while a DagReader created by an earlier Read may stay cached in dm.read: later reads serve the old DAG (stale or missing bytes, index out of range after growth)")
 		}
 	}
-	c.Min("O4 content-change sites", nO4, 5)
+	c.Min("O4 content-change sites", nO4, 1)
 
 	// ---------------- O5: offset arithmetic (round 2)
 	c10Arithmetic(c, fns, fWrBuf, fStart, fNode)
@@ -588,7 +588,7 @@ func c10Arithmetic(c *an.Ctx, fns []*ssa.Function, fWrBuf, fStart, fNode *types.
 				"the file is grown by a difference that was tested positive", "expandSparse is called with a size that is not a difference a-b guarded by a > b on the same operands: an unsigned underflow or a wrong operand grows the file by a bogus amount (misplaced or huge zero fill)")
 		}
 	}
-	c.Min("O5 expandSparse calls", nExp, 4)
+	c.Min("O5 expandSparse calls", nExp, 1)
 
 	// ---- (b) the flush: grow -> modifyDag(curNode, writeStart) -> reload its result -> appendData(only if bytes are left).
 	// The steps are found by role (callers of modifyDag other than itself; calls of appendData fed from wrBuf), wherever
@@ -698,7 +698,7 @@ func c10Arithmetic(c *an.Ctx, fns []*ssa.Function, fWrBuf, fStart, fNode *types.
 				"append only what is left in the buffer", "appendData is called for the write buffer although it may be empty (not guarded by wrBuf.Len() > 0)")
 		}
 	}
-	c.Min("O5 flush steps (modifyDag / appendData of the buffer)", nFlush, 2)
+	c.Min("O5 flush steps (modifyDag / appendData of the buffer)", nFlush, 1)
 
 	// ---- (c) recursive descents by child size
 	nDesc := 0
@@ -917,7 +917,7 @@ func c10Arithmetic(c *an.Ctx, fns []*ssa.Function, fWrBuf, fStart, fNode *types.
 			}
 		}
 	}
-	c.Min("O5 recursive descents", nDesc, 2)
+	c.Min("O5 recursive descents", nDesc, 1)
 
 	// ---- (d) leaf truncation cuts at the requested size; Truncate hands its own size down and rejects a negative one
 	// every entry into dagTruncate from outside cuts dm.curNode at a size that derives from a signed parameter which
@@ -971,6 +971,6 @@ func c10Arithmetic(c *an.Ctx, fns []*ssa.Function, fWrBuf, fStart, fNode *types.
 			c.Check(sl.Low == nil && sl.High == size, "O5", "R-FLOW", an.FuncName(dt), "leaf-data[:size]", sl.Pos(),
 				"leaf data is cut to [:size]", "a leaf is truncated to something other than data[:size]")
 		})
-		c.Min("O5 leaf truncation slices", n, 2)
+		c.Min("O5 leaf truncation slices", n, 1)
 	}
 }
